@@ -29,13 +29,15 @@ pub fn families(prop: &str) -> Families {
         seeded_ranges: true,
         pinned_gen: 0,
         luau_rich: true,
+        collapse_templates: true,
+        req_blocks: false,
     };
     match prop {
         // C02's quantifier has sort_requires off
         "C01" => Families { comment_enum: true, ..base },
         "C03" => Families { comment_enum: true, crlf_corpus: true, ..base },
         "C02" => Families { corpus_sort: false, comment_enum: true, ..base },
-        "C06" => Families { luau_rich: false, corpus_ranges: false, corpus_sort: false, tame: true, no_collapse: true, mutants: false, seeded_critical: false, seeded_ranges: false, pinned_gen: 900, seeded_min_width: 120, seeded_scale: 3, ..base },
+        "C06" => Families { req_blocks: true, luau_rich: false, corpus_ranges: false, corpus_sort: false, tame: true, no_collapse: true, mutants: false, seeded_critical: false, seeded_ranges: false, pinned_gen: 900, seeded_min_width: 120, seeded_scale: 3, ..base },
         "C10" => Families { corpus_ranges: false, crlf_corpus: true, ..base },
         _ => base,
     }
